@@ -173,6 +173,10 @@ extern int _vnadata_update_format_string(vnadata_internal_t *vdip);
 extern vnadata_filetype_t _vnadata_parse_filename(const char *filename,
 	int *ports);
 
+/* _vnadata_set_format: set the format on behalf of the application or a file */
+extern int _vnadata_set_format(vnadata_internal_t *vdip, const char *format,
+	const char *filename, int line);
+
 /* _vnadata_set_simple_format: set a single parameter */
 extern int _vnadata_set_simple_format(vnadata_internal_t *vdip,
 	vnadata_parameter_type_t type, vnadata_format_t format);
